@@ -238,3 +238,38 @@ Theorem C18_polygon_skip_vertices : forall (dim : nat) (l' l : list (list R)),
   subl l' l -> Forall (fun q => length q = dim) l -> (polyline_len l' <= polyline_len l)%R.
 Proof. exact polyline_skip. Qed.
 Print Assumptions C18_polygon_skip_vertices.
+
+(* ====================== TRANSLATOR TIE (Proofs/GenTie*.v) ======================
+   coq/Gen/*.v is the Gallina rendering of the Python source produced by harness/pytrans.py; every run of ./check regenerates it
+   from /repo and compares it function by function with the committed text (evidence: translator_tie).  The theorems below say
+   that the hand-written model (the subject of the theorems above) computes, for ALL inputs satisfying the stated
+   well-formedness, exactly what the translated source computes.  This block stays LAST in the file: its imports shadow
+   model names. *)
+From Coq Require Import List QArith Reals Qreals Lia Lra Arith Bool ZArith.
+From NV Require Import Scalar.Ops Model.Common Model.Basis Model.Knots Model.KnotIns Model.KnotRem Model.LinAlg Model.Degree
+  Gen.Prelude Gen.LinalgInternal Gen.Linalg Gen.Knotvector Gen.Helpers
+  Proofs.GenTieSums Proofs.GenTieLinAlg Proofs.GenTieSubst Proofs.GenTieLU Proofs.GenTieLUSolve Proofs.GenTieKnotRem Proofs.GenTieDegree
+  Proofs.GenTieLib Proofs.GenTieKnots Proofs.GenTieSpan Proofs.GenTieBasis Proofs.GenTieBasisOne
+  Proofs.GenTieDersOne Proofs.GenTieDersLib Proofs.GenTieDers Proofs.GenTieKnotIns.
+Local Open Scope nat_scope.
+
+From NV Require Import Model.Hull Gen.Utilities Proofs.GenTieBBox.
+
+(* [G] utilities.evaluate_bounding_box; float('inf') / float('-inf') are the last two arguments of the generated function:
+   ANY scalars strictly above / below the coordinates of the first point.  IndexError (no points) <-> Crash *)
+Theorem C18_gen_evaluate_bounding_box_R : forall (pts : list (list R)) (pinf ninf : R),
+  (forall x, In x (hd [] pts) -> oltb Rops x pinf = true /\ oltb Rops ninf x = true) ->
+  Utilities.evaluate_bounding_box Rops pts pinf ninf = res_to_gres (fun x => x) ValueError IndexError (Hull.bbox Rops pts).
+Proof. exact evaluate_bounding_box_tie_R. Qed.
+Print Assumptions C18_gen_evaluate_bounding_box_R.
+Theorem C18_gen_evaluate_bounding_box_Q : forall (pts : list (list Q)) (pinf ninf : Q),
+  (forall x, In x (hd [] pts) -> oltb Qops x pinf = true /\ oltb Qops ninf x = true) ->
+  Utilities.evaluate_bounding_box Qops pts pinf ninf = res_to_gres (fun x => x) ValueError IndexError (Hull.bbox Qops pts).
+Proof. exact evaluate_bounding_box_tie_Q. Qed.
+Print Assumptions C18_gen_evaluate_bounding_box_Q.
+
+Example C18_gen_nonvacuous :
+  Utilities.evaluate_bounding_box Qops [[1; 5; 2]; [0; 7; 2]; [3; 6; -1]]%Q 1000%Q (-1000)%Q = GOk ([0; 5; -1], [3; 7; 2])%Q
+  /\ Hull.bbox Qops [[1; 5; 2]; [0; 7; 2]; [3; 6; -1]]%Q = Ok ([0; 5; -1], [3; 7; 2])%Q.
+Proof. repeat split; vm_compute; reflexivity. Qed.
+
